@@ -24,6 +24,8 @@ func main() {
 	out := fs.String("out", "-", "output file (JSON lines)")
 	only := fs.Int("only", -1, "run only this case index (replay)")
 	repo := fs.String("repo", "/repo", "source tree (facts)")
+	dir := fs.String("dir", "", "database directory (child modes)")
+	script := fs.String("script", "", "operation script (child modes)")
 	fs.Parse(os.Args[2:])
 	f, ok := commands[cmd]
 	if !ok {
@@ -38,7 +40,7 @@ func main() {
 		}
 		defer w.Close()
 	}
-	ctx := &Ctx{Seed: *seed, Tier: *tier, Only: *only, Repo: *repo,
+	ctx := &Ctx{Seed: *seed, Tier: *tier, Only: *only, Repo: *repo, Dir: *dir, Script: *script,
 		Rng: rand.New(rand.NewSource(*seed)), out: bufio.NewWriterSize(w, 1<<20), Stats: map[string]int{}}
 	f(ctx)
 	ctx.Close()
